@@ -370,6 +370,8 @@ pub struct Counters {
     pub replay_diverged: bool,
     pub n_clock_reads: u64,
     pub n_clock_jumps_fired: u64,
+    /// simulated time at the end of the execution (ns)
+    pub clock_ns: u64,
 }
 
 pub struct SimOut<R> {
@@ -635,6 +637,7 @@ where
         replay_diverged: rec.diverged,
         n_clock_reads: ctx.n_clock_reads,
         n_clock_jumps_fired: ctx.n_clock_jumps_fired,
+        clock_ns: ctx.clock_ns,
     };
     SimOut {
         result,
